@@ -659,6 +659,11 @@ def check_eval(ctx, case):
   umax = float(numpy.max(numpy.sum(U ** 2, axis=1))) if len(U) else 0.0
   eta = [0.0 if exact else (4 * d + 48) * EPS * (umax + float(numpy.sum(w ** 2))) for w in W]
   allreps = case["reps"] + [p for a in case["adds"] for p in a]
+  # repulsors as the CALLER supplied them (constructor + every add call), mapped by the library's own conversion: an oracle
+  # that does not depend on what the function chose to store
+  supplied = ([] if case["reps_none"] else list(case["reps"])) + [p for a in case["adds"] for p in a]
+  Uexp = (convert_one_hot_to_search_hypercube_points(dom, numpy.array(supplied, dtype=float).reshape(len(supplied), d))
+          if supplied else numpy.empty((0, d)))
   nontrivial = False
   for b in case["batches"]:
     before = X.copy()
@@ -698,6 +703,17 @@ def check_eval(ctx, case):
       if r2 > eta[i] and case["xs"][i] in allreps and v != 0.0:
         ctx.violation("C19 search acquisition is not 0 at a repulsor point", {"case": case, "batch": b, "index": i, "value": float(v)})
         return False
+      if len(Uexp) and v != 0.0:
+        d2 = numpy.sum((Uexp - W[i][None, :]) ** 2, axis=1)
+        uem = float(numpy.max(numpy.sum(Uexp ** 2, axis=1)))
+        eta_e = 0.0 if exact else (4 * d + 48) * EPS * (uem + float(numpy.sum(W[i] ** 2)))
+        j = int(numpy.argmin(d2))
+        if float(d2[j]) < r2 - eta_e - 1e-300 and r2 > 0:
+          ctx.violation("C19 search acquisition is not 0 within the repulsion radius of a point the caller supplied as a repulsor "
+                        "(constructor or add_normalized_repulsor_point)",
+                        {"case": case, "batch": b, "index": i, "value": float(v), "repulsor": supplied[j],
+                         "squared_distance": float(d2[j]), "radius_squared": float(r2)})
+          return False
     if r2 <= 0 or not len(U):
       bad = [i for i, v in enumerate(vals) if abs(v - pos[i]) > TOLP]
       if bad:
